@@ -623,6 +623,12 @@ CORPUS = [
          alarms=[dict(trigger=('r', -86400), repeat=2, duration=43200), dict(trigger=('r', -3600), related='END')]),
     dict(kind='VTODO', start=None, end=('at', ('zone', 'Europe/Berlin', datetime(2020, 3, 29, 2, 30))),
          alarms=[dict(trigger=('r', 0), related='END', repeat=2, duration=1800)]),
+    # an all-day anchor with a sub-day trigger whose repetitions land exactly on midnight (whole days from the anchor)
+    dict(kind='VEVENT', start=('date', date(2024, 5, 1)), end=None, alarms=[dict(trigger=('r', -900), repeat=2, duration=900)]),
+    dict(kind='VTODO', start=None, end=('at', ('date', date(2024, 5, 1))), alarms=[dict(trigger=('r', -43200), related='END', repeat=3, duration=21600)]),
+    dict(kind='VEVENT', start=('date', date(2024, 5, 1)), end=None, alarms=[dict(trigger=('r', 3600), repeat=1, duration=82800)]),
+    dict(kind='VEVENT', start=('date', date(2024, 5, 1)), end=('at', ('date', date(2024, 5, 3))),
+         alarms=[dict(trigger=('r', -1800), related='END', repeat=4, duration=1800)]),
     # repaired: lower-case RELATED=start was anchored to the end
     dict(kind='VEVENT', start=('date', date(2020, 3, 29)), end=None, alarms=[dict(trigger=('r', -86400), related='start')]),
 ]
@@ -858,8 +864,45 @@ def check_alarms_independent(ctx):
                       f'a fresh parse of the same text gives {got2} after another parsed copy was edited, expected {want_fresh}')
 
 
+def check_refused_component(ctx):
+    """the computed times of an Alarms object are those of its component, also after it refused another one"""
+    from datetime import datetime, timezone
+    from icalendar import Alarm, Event, Todo
+    from icalendar.alarms import Alarms
+    U = timezone.utc
+
+    def comp(cls, start, uid):
+        c = cls()
+        c.add('uid', uid)
+        c.start = start
+        c.end = start + timedelta(hours=2) if isinstance(start, datetime) else start + timedelta(days=2)
+        for rel in ('START', 'END'):
+            a = Alarm()
+            a.TRIGGER = timedelta(minutes=-30)
+            a.TRIGGER_RELATED = rel
+            a.REPEAT = 1
+            a.DURATION = timedelta(minutes=10)
+            c.add_component(a)
+        return c
+    first = comp(Event, datetime(2024, 3, 5, 10, tzinfo=U), 'first')
+    for other in (comp(Event, datetime(2029, 6, 1, 8, tzinfo=U), 'later'), comp(Todo, date(2030, 1, 1), 'todo')):
+        al = Alarms(first)
+        before = [t.trigger for t in al.times]
+        ctx.evaluated(('refused-component', str(other.get('uid'))))
+        try:
+            al.add_component(other)
+            continue
+        except ValueError:
+            pass
+        after = [t.trigger for t in al.times]
+        if after != before:
+            ctx.violation('times-after-refused-component', {'other': str(other.get('uid'))},
+                          f'add_component of a second component was refused, yet the times changed from {before} to {after}')
+
+
 def oracle(ctx):
     check_alarms_independent(ctx)
+    check_refused_component(ctx)
     light = not ctx.escalate and ctx.tier == 'quick'
     specs = list(all_specs(ctx, ctx.vol(500)))
     for prov in PROVIDERS:
